@@ -37,6 +37,22 @@ def gen_word(rng, n=None, hostile=40):
     return "".join(out)
 
 
+def gen_long(rng, prefix):
+    """a text of 250..1200 bytes with two-byte characters placed around the 256-byte mark (and elsewhere): whatever
+    fixed-size buffer or cut a listing applies, it lands inside a character for some of these"""
+    target = rng.choice([250, 255, 256, 257, 258, 300, 600, 1200])
+    out = prefix
+    while len(out.encode()) < target:
+        n = len(out.encode())
+        if 250 <= n <= 258 and rng.chance(70):
+            out += rng.choice(["é", "ü", "ñ"])
+        elif rng.chance(4):
+            out += rng.choice(["é", "ü", "ñ", "%", "_"])
+        else:
+            out += PLAIN[rng.below(len(PLAIN))]
+    return out
+
+
 def gen_line(rng, k):
     """a command line that runs inside the shell (an assignment), with quoted segments"""
     parts = ["H%d=" % k, gen_word(rng)]
@@ -88,6 +104,8 @@ def gen_scenario(rng, cfg):
                 # a line that starts no command is a submitted line all the same
                 # (no trailing blank: recording trims the line's ends, which the statement does not forbid)
                 text = ("# note %d %s" % (k, gen_word(rng, 3, hostile=60).replace("\\", ""))).strip()
+            if kind == "plain" and cfg.get("long_texts") and rng.chance(30):
+                text = gen_long(rng, "L%d=" % k)
             if cfg.get("repeat_texts") and rng.chance(50):
                 text = "D%d=same" % rng.below(3)      # the same line submitted again later (not immediately)
             if kind == "space" and rng.chance(40):
@@ -95,6 +113,8 @@ def gen_scenario(rng, cfg):
             ops.append({"op": "type", "shell": sh, "text": text, "kind": kind})
         elif r < 50:
             t = gen_text(rng)
+            if cfg.get("long_texts") and rng.chance(40):
+                t = gen_long(rng, "long %d " % k)
             if shquote(t) is None:
                 t = t.replace("'", "")
             ts = None
@@ -127,7 +147,12 @@ def gen_scenario(rng, cfg):
         elif r < 95 and cfg.get("kills", True):
             ops.append({"op": "kill", "shell": sh, "at": rng.choice(["prompt", "done"])})
         elif r < 96:
-            ops.append({"op": "rmdb"})
+            if rng.chance(50):
+                ops.append({"op": "rmdb"})
+            else:
+                # fault: the shell's working directory is removed under it; what is typed there is recorded all the same
+                k += 1
+                ops.append({"op": "rmcwd", "shell": sh, "text": gen_line(rng, k)})
         elif r < 97:
             k += 1
             ops.append({"op": "locked", "shell": sh, "text": gen_line(rng, k)})
@@ -659,6 +684,30 @@ class C18Runner:
             if op["dir"] != "plain" and want:
                 self.sim.probe("listing_by_hostile_directory_nonempty")
             return
+        if k == "rmcwd":
+            sh = self.shell_for(op["shell"])
+            self.gone_n = getattr(self, "gone_n", 0) + 1
+            d = os.path.join(self.dirs, "gone%d" % self.gone_n)
+            os.mkdir(d)
+            self.ev("cd-then-removed", sh.idx)
+            self.type_and_run(sh, ' cd "%s"' % d)
+            sh.unrecorded_since = True
+            os.rmdir(d)
+            self.sim.fault("working_directory_removed")
+            text = op["text"]
+            self.ev("type", sh.idx, "plain", text)
+            tsb_guess = self.clock + 1e-3
+            self.type_and_run(sh, text)
+            if not (sh.prev is not None and text == sh.prev):
+                self.add_row(text, tsb_guess, cwd=d)
+                sh.prev = text
+                sh.unrecorded_since = False
+            self.check_db("typing a line in a removed working directory (shell %d)" % sh.idx)
+            back = os.path.join(self.dirs, "plain")
+            self.type_and_run(sh, ' cd "%s"' % back)
+            sh.unrecorded_since = True
+            sh.cwd = back
+            return
         if k == "cd":
             sh = self.shell_for(op["shell"])
             d = os.path.join(self.dirs, op["dir"])
@@ -745,7 +794,8 @@ def _execute(cls, sc, picks=None, rng=None, keep_log=False):
 
 
 CONFIGS = {
-    "plain": ({"max_ops": 14}, 50),
+    "plain": ({"max_ops": 14}, 42),
+    "long_texts": ({"max_ops": 10, "long_texts": True, "kills": False}, 8),
     "kills": ({"max_ops": 10, "kills": True}, 25),
     "dedup_on": ({"max_ops": 14, "dedup": True, "kills": True, "repeat_texts": True}, 12),
     "long": ({"max_ops": 24}, 8),
